@@ -32,7 +32,7 @@ ASSUMPTIONS = [
     "unexpected (non-ResolverError) resolver exceptions are outside this property (they abort the request; see C08)",
     "documented middleware nesting = apply_middlewares doctest: the last listed middleware is outermost",
 ]
-BOUNDS = {"quick": {"early_bound": 1, "free_order_upto": 4, "stacks": "instr 1,2,3n x mw 0,2 (+tracer)"}, "thorough": {"early_bound": 2, "free_order_upto": 5, "stacks": "instr 1,2,3,3n x mw 0,1,2,3 (+tracer)"}}
+BOUNDS = {"quick": {"early_bound": 1, "free_order_upto": 4, "stacks": "instr 1,2,3n x mw 0,2 (+tracer)", "subscriptions": "3 selections x 1..3 events x deferred/immediate source, every failure set"}, "thorough": {"early_bound": 2, "free_order_upto": 5, "stacks": "instr 1,2,3,3n x mw 0,1,2,3 (+tracer)", "subscriptions": "3 selections x 1..3 events x deferred/immediate source, every failure set"}}
 TIME_CAP = {"quick": 120, "thorough": 1500}
 
 REQUESTS = [
@@ -89,12 +89,72 @@ def _stacks(tier):
     yield {"instr": 2, "instr_nested": False, "mw": 1, "tracer": True}
 
 
+SUBSCRIPTIONS = [
+    ("ev { x }", {"Obj.x": "async"}),
+    ("ev { x y l { x } }", {"Obj.x": "sync", "Obj.y": "async"}),
+    ("tick", {"Subscription.tick": "async"}),
+]
+
+
 def cases(tier):
     for name, scn, stages in REQUESTS:
         for stk in _stacks(tier):
             s = dict(scn)
             s.update(stk)
             yield {"name": name, "scn": s, "stages": stages}
+    # subscriptions: the instrumentation passed to subscribe() observes every event's fields (stream machinery of C17)
+    for sel, custom in SUBSCRIPTIONS:
+        for n in (1, 2, 3):
+            for mode in ("deferred", "immediate"):
+                yield {"name": "subscription", "kind": "subscription",
+                       "c17": {"kind": "stream", "sel": sel, "custom": custom, "n": n, "mode": mode, "resolver": "sync"}}
+
+
+def _check_subscription(case, st):
+    """field hooks of the instrumentation given to subscribe(): within every event, each field_start is followed
+    by exactly one field_end of the same path, under every delivery / completion schedule"""
+    from mc.checks import C17
+    from mc.explore import explore, run_once
+
+    c17 = case["c17"]
+    out = []
+    for ov in C17._failure_sets(c17, "quick"):
+        body = lambda ch: C17._body(c17, ov, ch)  # noqa
+        bad = 0
+        for choices, (obs, world) in explore(body, bound=BOUNDS[st.tier]["early_bound"], st=st, max_execs=4000):
+            st.n("evaluations")
+            prob = _subscription_hooks(world.log)
+            if c17["n"] >= 2:
+                st.nt(("subscription", c17["sel"], c17["n"], c17["mode"], sorted(ov.items()), choices))
+            st.outcome(("subscription", c17["sel"], c17["n"], prob and prob[0]))
+            if prob:
+                bad += 1
+                if bad <= 1:
+                    w2 = run_once(body, choices)[1][1]
+                    if _subscription_hooks(w2.log) != prob:
+                        raise HarnessError("non-deterministic replay %r" % (choices,))
+                    out.append(("subscription/" + prob[0], {"case": case, "overrides": ov, "choices": choices}, prob[1]))
+    return out
+
+
+def _subscription_hooks(log):
+    open_ = {}
+    for e in log:
+        if e[0] != "hook" or e[2] not in ("field_start", "field_end"):
+            continue
+        k = (e[1], e[3])
+        if e[2] == "field_start":
+            if open_.get(k):
+                return ("field-start-twice", "field_start for %s fired again before its field_end" % e[3])
+            open_[k] = 1
+        else:
+            if not open_.get(k):
+                return ("field-end-without-start", "field_end for %s without an open field_start" % e[3])
+            open_[k] = 0
+    left = sorted(k[1] for k, v in open_.items() if v)
+    if left:
+        return ("field-end-missing", "field_start without field_end for %s" % left)
+    return None
 
 
 START = ("query_start", "parsing_start", "validation_start", "execution_start", "field_start")
@@ -276,6 +336,8 @@ def check_case(case, st):
     from mc.sched import harness as H
     from mc.sched import scenario as S
 
+    if case.get("kind") == "subscription":
+        return _check_subscription(case, st)
     b = BOUNDS[st.tier]
     scn = case["scn"]
     out = []
@@ -320,6 +382,13 @@ def replay(w):
     from mc.sched import scenario as S
 
     case = w["case"]
+    if case.get("kind") == "subscription":
+        from mc.checks import C17
+        from mc.explore import run_once
+
+        world = run_once(lambda ch: C17._body(case["c17"], w["overrides"], ch), w["choices"])[1][1]
+        prob = _subscription_hooks(world.log)
+        return [("subscription/" + prob[0], prob[1])] if prob else []
     obs, world = S.replay(w["config"], case["scn"], w["choices"], w.get("free", True), fast=False)
     if obs["status"] == "exc":
         return [("%s/request-raises" % w["config"], obs.get("exc"))]
